@@ -3,8 +3,8 @@
    Vocabulary: [flat (segs b)] is the list of addresses an IoBuffers value still covers, in order
    (the concatenation of its segments); [adv k b b'] says b' is b with the first k of them consumed. *)
 From Coq Require Import List String NArith Bool Permutation.
-From FB Require Import Gen.BytesDelegation Model.Transport Proofs.Transport Proofs.TransportMachine
-     Proofs.TransportFamily Proofs.TransportLoops Proofs.TransportFuse Proofs.TransportAdapter.
+From FB Require Import Gen.BytesDelegation Gen.AsyncTransport Model.Transport Proofs.Transport Proofs.TransportMachine
+     Proofs.TransportFamily Proofs.TransportLoops Proofs.TransportFuse Proofs.TransportAsync Proofs.TransportAdapter.
 Import ListNotations.
 Local Open Scope N_scope.
 
@@ -235,6 +235,55 @@ Theorem C04_fusedev_run : forall ops st, f_wf st ->
   (exists ps, f_pkts (snd (frun ops st)) = f_pkts st ++ ps /\ (List.length ps <= List.length ops)%nat).
 Proof. exact frun_post. Qed.
 
+(* ================= async variants (feature async-io) =================
+   Model/Transport.v has the async methods written from their own code ([avstep], [afstep]); they are the state
+   transformers of the synchronous operations [desugar a] / [fdesugar a], so everything above applies to runs
+   that mix in async operations. *)
+Theorem C04_async_op_same : forall a st, avstep a st = vstep (desugar a) st.
+Proof. exact async_op_same. Qed.
+Theorem C04_async_run_same : forall ops st, avrun ops st = vrun (map desugar ops) st.
+Proof. exact async_run_same. Qed.
+Theorem C04_async_run : forall ops st, wf_st st -> exists log rlog, step_post st (snd (avrun ops st)) log rlog.
+Proof. exact async_run_post. Qed.
+Theorem C04_async_stores_persist : forall ops st, wf_st st -> NoDup (live (v_wr st)) ->
+  exists log rlog, step_post st (snd (avrun ops st)) log rlog /\
+    NoDup (map fst log) /\ forall a v, In (a, v) log -> mget (v_mem (snd (avrun ops st))) a = v.
+Proof. exact async_stores_persist. Qed.
+(* FuseDevWriter.  Full statement: every regular async operation (all but async_write_all of an empty buffer, which
+   does nothing at all) is its synchronous counterpart.  Where async_write_from_at puts the file data is read from
+   the source (Gen/AsyncTransport.v): the statement fails exactly when that is the start of the buffer instead of
+   buf + len (defect: bytes buffered earlier are overwritten and stale bytes get committed). *)
+Definition C04_async_fusedev_full : Prop := async_fusedev_full async_wfrom_at_len.
+Theorem C04_async_fusedev_refuted_iff : ~ C04_async_fusedev_full <-> async_wfrom_at_len = false.
+Proof. exact (async_fusedev_refuted_iff async_wfrom_at_len). Qed.
+Theorem C04_async_fusedev_when_at_len : async_fusedev_full true.
+Proof. exact async_fusedev_full_true. Qed.
+(* in any case it holds whenever the target of async_write_from_at has written nothing yet (a fresh split-off data
+   writer, the way the server uses it) *)
+Theorem C04_async_fusedev_partial : forall at_len a st, fa_regular a = true -> fa_fresh a st ->
+  afstep at_len a st = fstep (fdesugar a) st.
+Proof. exact async_fusedev_partial. Qed.
+Theorem C04_async_fusedev_write_all_empty : forall at_len i st w, nth_error (f_ws st) i = Some w ->
+  afstep at_len (FAWriteAll i []) st = (fobs (ROk 0 []) w, st).
+Proof. exact async_write_all_empty. Qed.
+(* and unconditionally, for runs mixing sync and async operations: len <= cap, memory outside the reply buffer
+   untouched, windows never grow, at most one packet per operation (async_commit included) *)
+Theorem C04_async_fusedev_run : forall at_len ops st, f_wf st ->
+  f_wf (snd (afrun at_len ops st)) /\
+  (forall x, (forall w, In w (f_ws st) -> ~ f_owns w x) -> mget (f_mem (snd (afrun at_len ops st))) x = mget (f_mem st) x) /\
+  (forall w' x, In w' (f_ws (snd (afrun at_len ops st))) -> f_owns w' x -> exists w, In w (f_ws st) /\ f_owns w x) /\
+  (exists ps, f_pkts (snd (afrun at_len ops st)) = f_pkts st ++ ps /\ (List.length ps <= List.length ops)%nat).
+Proof. exact afrun_post. Qed.
+Example C04_async_nonvacuous :
+  fa_regular (FAWriteFromAt 0 2 (Some [7; 8])) = true /\
+  (* at the start of the buffer: the byte buffered before is lost *)
+  f_pkts (snd (afrun false [FSync (FSplit 0 8); FAWrite 0 [1]; FAWriteFromAt 0 2 (Some [7; 8]); FACommit 0 None]
+                     (mkf (mem_init 0) [mkfdw false 100 0 16] []))) = [[7; 8; pat 0 102]] /\
+  (* behind what is buffered: the concatenation written *)
+  f_pkts (snd (afrun true [FSync (FSplit 0 8); FAWrite 0 [1]; FAWriteFromAt 0 2 (Some [7; 8]); FACommit 0 None]
+                     (mkf (mem_init 0) [mkfdw false 100 0 16] []))) = [[1; 7; 8]].
+Proof. split; [reflexivity|]. split; vm_compute; reflexivity. Qed.
+
 (* ================= the Bytes<usize> adapter of FileVolatileSlice is a plain view ================= *)
 (* full statement: every trait method forwards to the VolatileSlice method of the same name.
    It was refuted while read_slice forwarded to write_slice (defect D3); since the fix 88a9593 the table
@@ -338,6 +387,15 @@ Print Assumptions C04_fusedev_split.
 Print Assumptions C04_fusedev_split_content.
 Print Assumptions C04_fusedev_commit.
 Print Assumptions C04_fusedev_run.
+Print Assumptions C04_async_op_same.
+Print Assumptions C04_async_run_same.
+Print Assumptions C04_async_run.
+Print Assumptions C04_async_stores_persist.
+Print Assumptions C04_async_fusedev_refuted_iff.
+Print Assumptions C04_async_fusedev_when_at_len.
+Print Assumptions C04_async_fusedev_partial.
+Print Assumptions C04_async_fusedev_write_all_empty.
+Print Assumptions C04_async_fusedev_run.
 Print Assumptions C04_adapter.
 Print Assumptions C04_adapter_view_all.
 Print Assumptions C04_adapter_refuted_iff.
